@@ -12,8 +12,8 @@ ALLOW = 'bufio,io,encoding/binary,errors,bytes,time'
 INITS = 'io,bufio,errors,time,github.com/bluenviron/gomavlib/v3/pkg/message,github.com/bluenviron/gomavlib/v3/pkg/frame'
 OPTIONS = {'x25_uf': True, 'now_stub': True}
 NATIVE = False
-ANCHOR_FILES = ['/repo/node.go', '/repo/channel.go', '/repo/channel_provider.go', '/repo/endpoint_custom.go']
-LEVEL_TEXT = ('bounded symbolic execution of the real Node/Channel/provider code under a cooperative goroutine scheduler: six scripted '
+ANCHOR_FILES = ['/repo/node.go', '/repo/channel.go', '/repo/channel_provider.go', '/repo/endpoint_custom.go', '/repo/endpoint_serial.go']
+LEVEL_TEXT = ('bounded symbolic execution of the real Node/Channel/provider code under a cooperative goroutine scheduler: nine scripted '
               'close scenarios, ONE schedule each (every goroutine runs until it blocks, round-robin, to quiescence); a violation is a real '
               'reachable state, a pass covers that schedule only')
 LEVEL_NOTE = ('NOT the for-all-schedules claim of the property: one deterministic schedule per scenario; custom endpoint only (no listeners, '
@@ -22,24 +22,25 @@ TECHNIQUE = 'symbolic execution of go/ssa under a deterministic cooperative goro
 
 
 def tasks(tier):
-    return [Task('verifHarness_C12_close', [s]) for s in (0, 1, 2, 3)] + [Task('verifHarness_C12_close2', [s]) for s in (4, 5)]
+    return [Task('verifHarness_C12_close', [s]) for s in (0, 1, 2, 3)] + [Task('verifHarness_C12_close2', [s]) for s in (4, 5)] + \
+        [Task('verifHarness_C12_init_failure', [o]) for o in (0, 1)] + [Task('verifHarness_C12_close_backoff', [])]
 
 
 def required_reach(tier):
-    return ['C12/close', 'C12/close2']
+    return ['C12/close', 'C12/close2', 'C12/init-failure', 'C12/backoff']
 
 
 def bounds(tier):
     return {'scenarios': 'Close with (0) the application consuming and the channel idle, (1) the consumer stopped and the reader stuck on the '
-                         'undelivered open event, (2) the writer stuck inside a transport Write, (3) right after Initialize with a write racing, (4) while a provider is still connecting (the connection completes afterwards and must be released), (5) stream requests enabled, the reader stuck on an undelivered event with an ArduPilot heartbeat buffered behind it',
+                         'undelivered open event, (2) the writer stuck inside a transport Write, (3) right after Initialize with a write racing, (4) while a provider is still connecting (the connection completes afterwards and must be released), (5) stream requests enabled, the reader stuck on an undelivered event with an ArduPilot heartbeat buffered behind it, (6) a serial endpoint whose device was lost, with every reopen failing and the reconnect timer not elapsed',
+            'failed_initialize': 'a usable custom endpoint before / after an endpoint whose set-up fails: error reported, no goroutine left, the endpoint already set up closed once',
             'schedule': 'ONE: goroutines run round-robin, each until it blocks, to quiescence',
-            'endpoint': 'custom transport only',
-            'NOT DECIDED': 'every other interleaving; TCP/UDP/serial endpoints, listening ports and accepted connections; provider in '
-                           'connect or reconnect back-off; initialization failure paths; goroutine dumps of the real runtime'}
+            'endpoint': 'custom transport; serial endpoint with a scripted open function (scenario 6)',
+            'NOT DECIDED': 'every other interleaving; TCP/UDP endpoints, listening ports and accepted connections; '
+                           'initialization failures other than a failing endpoint set-up; goroutine dumps of the real runtime'}
 
 
-OUTSIDE = ['all schedules other than the round-robin one', 'endpoint kinds other than custom', 'release of listening ports and accepted connections',
-           'a node whose initialization fails']
+OUTSIDE = ['all schedules other than the round-robin one', 'TCP/UDP endpoint kinds', 'release of listening ports and accepted connections']
 STUBS = ['goroutines: cooperative scheduler (gosym/sched.py); channels with rendezvous semantics for unbuffered ones; sync.WaitGroup counters; '
          'context cancel; transport blocking until the harness or Close flips a flag', 'x25 summarised, sha256 uninterpreted']
 ASSUMPTIONS = ['go/ssa faithfully represents the compiled code', 'the gosym channel/select/scheduler model is faithful', 'z3 is sound']
